@@ -39,6 +39,14 @@ for sid in ids:
     json.dump(meta, open(d + "/meta.json", "w"), indent=1, ensure_ascii=False)
     rows.append((sid, res))
     print(sid, {p: ("VIOLATION" + ("" if v["concrete_input"] else " (no input)") if v["violation_line"] else "missed") for p, v in res.items()}, flush=True)
+allrows = []
+for sid in sorted(os.listdir(ROOT + "/seeded")):
+    mp = f"{ROOT}/seeded/{sid}/meta.json"
+    if os.path.exists(mp):
+        mm = json.load(open(mp))
+        if "checks_run" in mm:
+            allrows.append((sid, mm["checks_run"]["results"]))
+rows = allrows
 with open(ROOT + "/seeded/RESULTS.md", "w") as f:
     f.write(f"# Seeded changes against the registered checks ({tier} tier)\n\n| seeded change | own check | related checks |\n|---|---|---|\n")
     for sid, res in rows:
